@@ -148,6 +148,9 @@ func c9cClass(err error) string {
 			return "dup-block"
 		}
 	}
+	if errors.Is(err, validitywindow.ErrTimestampExpired) || errors.Is(err, validitywindow.ErrFutureTimestamp) {
+		return "tx-invalid"
+	}
 	msg := err.Error()
 	if len(msg) > 60 {
 		msg = msg[:60]
@@ -281,7 +284,7 @@ func TestVerifC09Chain(t *testing.T) {
 			full := w.tvw.Complete(ctx, blk(f[1]).exec)
 			w.ready = full && blk(f[1]) == w.la
 			r.Emit(l, fmt.Sprintf("full=%v", full))
-		case f[0] == "verify" && len(f) == 2 && blk(f[1]) != nil && w.tvw != nil:
+		case f[0] == "execute" && len(f) == 2 && blk(f[1]) != nil && w.tvw != nil:
 			b := blk(f[1])
 			p := w.blocks[b.parent]
 			if p == nil || p.out == nil || p.dead {
@@ -321,7 +324,7 @@ func TestVerifC09Chain(t *testing.T) {
 			switch {
 			case rep != "" && err == nil:
 				r.ViolationAt("chain-repeat-executed", w.seqLine, r.Line(), "Processor.Execute accepted %s", rep)
-			case rep != "" && !errors.Is(err, chain.ErrDuplicateTx):
+			case rep != "" && !errors.Is(err, chain.ErrDuplicateTx) && w.allValid(b):
 				r.ViolationAt("chain-repeat-wrong-error", w.seqLine, r.Line(), "Processor.Execute rejected %s with %v, not ErrDuplicateTx", rep, err)
 			case rep == "" && errors.Is(err, chain.ErrDuplicateTx) && (got == "dup-anc" || got == "dup-block"):
 				r.ViolationAt("chain-false-duplicate", w.seqLine, r.Line(), "Processor.Execute reported a duplicate in block %d that repeats nothing", b.n)
@@ -445,6 +448,17 @@ func TestVerifC09Chain(t *testing.T) {
 	}
 }
 
+
+// allValid: every tx of the block satisfies ts <= expiry <= ts + W on the exact millisecond timestamp
+func (w *c9cWorld) allValid(b *c9cBlock) bool {
+	for _, t := range b.txIDs {
+		if e := w.txExp[t]; e < b.rel || e > b.rel+w.W {
+			return false
+		}
+	}
+	return true
+}
+
 func (w *c9cWorld) kill(b *c9cBlock) {
 	b.dead = true
 	for _, o := range w.blocks {
@@ -470,9 +484,15 @@ func c9cGenerate(r *verifh.Run) []string {
 	}
 	// corpus: an expired tx ahead of a tx repeated from an accepted ancestor in one builder batch
 	out = append(out, "reset 60000 0", "blk 0 999999 0 0 0", "idx+ 0", "new! 0", "complete! 0",
-		"blk 1 0 1000 1 1 1 50000", "idx+ 1", "verify 1", "accept! 1",
+		"blk 1 0 1000 1 1 1 50000", "idx+ 1", "execute 1", "accept! 1",
 		"build 1 30000 3 2 5000 1 50000 3 60000",
 		"build 1 30000 4 4 6000 5 7000 1 50000 6 61000")
+	// corpus: a tx expiring at second 1000 included at t=500, evicted by a block at t=1100, offered again at t=1500
+	out = append(out, "reset 5000 0", "blk 0 999999 0 0 0", "idx+ 0", "new! 0", "complete! 0",
+		"blk 1 0 500 1 1 1 1000", "idx+ 1", "execute 1", "accept! 1",
+		"blk 2 1 1100 2 0", "idx+ 2", "execute 2", "accept! 2",
+		"blk 3 2 1500 3 1 1 1000", "idx+ 3", "execute 3",
+		"blk 4 2 1100 3 1 1 1000", "idx+ 4", "execute 4")
 	nseq := r.N(120, 3000)
 	for q := 0; q < nseq; q++ {
 		W := []int64{2000, 5000, 60_000}[rng.Intn(3)]
@@ -515,7 +535,7 @@ func c9cGenerate(r *verifh.Run) []string {
 			switch k := rng.Intn(100); {
 			case k < 55 && len(tips) > 0: // new block on a tip, then Execute
 				p := tips[len(tips)-1-rng.Intn(min(3, len(tips)))]
-				ts := p.ts + int64(rng.Intn(3)/2)*1000
+				ts := p.ts + []int64{0, 100, 300, 700, 900, 1000}[rng.Intn(6)]
 				b := &gb{n: next, parent: p.n, ts: ts, h: p.h + 1}
 				next++
 				old := chainTxs(p)
@@ -523,7 +543,13 @@ func c9cGenerate(r *verifh.Run) []string {
 				for i, nt := 0, rng.Intn(4); i < nt; i++ {
 					if len(old) > 0 && rng.Chance(30) { // repeat a tx of the chain if it is still valid at ts
 						c := old[rng.Intn(len(old))]
-						if e := exp[c]; e >= ts && e <= ts+W {
+						for k := 0; k < 3; k++ { // prefer txs that expired less than a second ago, or are still valid
+							if e := exp[c]; e > ts-1000 && e <= ts+W {
+								break
+							}
+							c = old[rng.Intn(len(old))]
+						}
+						if e := exp[c]; e > ts-1000 && e <= ts+W {
 							b.txs = append(b.txs, c)
 							repeat = true
 							continue
@@ -534,15 +560,18 @@ func c9cGenerate(r *verifh.Run) []string {
 						repeat = true
 						continue
 					}
-					e := ts + int64(rng.Intn(int(W/1000)+1))*1000
+					e := (ts+999)/1000*1000 + int64(rng.Intn(int(W/1000)))*1000 // whole seconds, >= ts
+					if rng.Chance(40) {
+						e = (ts + 999) / 1000 * 1000 // expires at the next second boundary
+					}
 					if W == 60_000 && rng.Chance(50) {
-						e = ts + 40_000 + int64(rng.Intn(15))*1000
+						e = (ts+999)/1000*1000 + 40_000 + int64(rng.Intn(15))*1000
 					}
 					if e == 0 {
 						e = 1000
 					}
 					if e > ts+W {
-						e = ts + W
+						e = (ts + W) / 1000 * 1000
 					}
 					exp[nextTx] = e
 					b.txs = append(b.txs, nextTx)
@@ -557,7 +586,7 @@ func c9cGenerate(r *verifh.Run) []string {
 				}
 				add("blk %d %d %d %d %d%s", b.n, b.parent, b.ts, b.h, len(b.txs), sb.String())
 				add("idx+ %d", b.n)
-				add("verify %d", b.n)
+				add("execute %d", b.n)
 			case k < 75: // accept a verified child of the last accepted block (Accepter.AcceptBlock)
 				var kids []*gb
 				for _, id := range order {
